@@ -183,6 +183,12 @@ class Parser:
                     g, ty = f"(glam_project_onto {g} {a[0][0]})", "V"
                 elif sig == ("M", "determinant", ()):
                     g, ty = f"(glam_determinant {g})", "S"
+                elif sig == ("V", "length_squared", ()):
+                    g, ty = f"(dot {g} {g})", "S"
+                elif sig == ("V", "distance", ("V",)):
+                    g, ty = f"(sqrt (dot (vsub {g} {a[0][0]}) (vsub {g} {a[0][0]})))", "S"
+                elif sig == ("S", "sqrt", ()):
+                    g, ty = f"(sqrt {g})", "S"
                 elif sig == ("V", "length", ()):
                     g, ty = f"(sqrt (dot {g} {g}))", "S"
                 elif sig == ("S", "signum", ()):
@@ -214,6 +220,11 @@ class Parser:
             if [t for _, t in a] != ["V", "V", "V"]:
                 raise TranslationError(f"{self.fname}: from_cols arguments")
             return f"(from_cols {a[0][0]} {a[1][0]} {a[2][0]})", "M"
+        if tok == "Self::new" and self.fname.startswith("from_"):
+            a = self.args()
+            if [t for _, t in a] != ["V", "S"]:
+                raise TranslationError(f"{self.fname}: Sphere::new arguments")
+            return f"(mkS {a[0][0]} {a[1][0]})", "Sp"
         if tok == "Plane::new":
             a = self.args()
             if [t for _, t in a] != ["V", "V"]:
@@ -234,12 +245,13 @@ class Parser:
         raise TranslationError(f"{self.fname}: unexpected token {tok!r}")
 
 
-GTY = {"S": "R", "V": "V", "P": "plane", "M": "mat"}
+GTY = {"S": "R", "V": "V", "P": "plane", "M": "mat", "Sp": "sphere"}
 
 
-def translate_fn(src, name, funs, stop_at_let=None):
+def translate_fn(src, name, funs, stop_at_let=None, ret=None):
     """-> (gallina definition text, list of asserted side conditions, number of lets)"""
     params, rt, body = find_fn(src, name)
+    rt = ret or rt
     env = {nm: (("self_" if nm == "self" else nm), ty) for nm, ty in params}
     stmts = [s.strip() for s in body.split(";")]
     lets, asserts = [], []
@@ -284,7 +296,7 @@ def translate_fn(src, name, funs, stop_at_let=None):
     return text, asserts, len(lets)
 
 
-PRELUDE = r"""From Coq Require Import Reals Lra Field.
+PRELUDE = r"""From Coq Require Import Reals Lra Psatz Field.
 Open Scope R_scope.
 Definition V := (R * R * R)%type.
 Definition vx (v : V) := fst (fst v).  Definition vy (v : V) := snd (fst v).  Definition vz (v : V) := snd v.
@@ -302,6 +314,7 @@ Definition glam_determinant (m : mat) : R := dot (c2 m) (cross (c0 m) (c1 m)).
 Definition glam_project_onto (a b : V) : V := smul (/ dot b b) (smul (dot a b) b).
 Definition signum (x : R) : R := if Rle_dec 0 x then 1 else -1.
 Record plane := mkP { pn : V; pp : V }.
+Record sphere := mkS { sc : V; sr : R }.
 Ltac vec_crush := unfold glam_determinant, glam_project_onto in *; cbn [c0 c1 c2] in *; unfold vadd, vsub, vneg, smul, vdivs, dot, cross, vx, vy, vz in *; cbn [fst snd c0 c1 c2 pn pp] in *.
 """
 
@@ -366,6 +379,20 @@ Theorem signed_area_tri_src_shape : forall v0 v1 v2 t : V,
   signed_area_tri_src v0 v1 v2 t = sqrt (dot n n) * signum (dot (vsub t v0) n).
 Proof. intros. unfold signed_area_tri_src, n, signed_area_tri_n_src. reflexivity. Qed.
 
+Theorem from_two_points_src_spec : forall a b : V,
+  let s := from_two_points_src a b in
+  dot (vsub (sc s) a) (vsub (sc s) a) = sr s * sr s /\ dot (vsub (sc s) b) (vsub (sc s) b) = sr s * sr s /\
+  vadd (sc s) (sc s) = vadd a b.
+Proof.
+  intros [[a0 a1] a2] [[b0 b1] b2]. cbv zeta. unfold from_two_points_src. cbn [sc sr]. vec_crush.
+  match goal with |- context [sqrt ?X] => set (X0 := X) end.
+  assert (HX : 0 <= X0) by (unfold X0; repeat apply Rplus_le_le_0_compat; match goal with |- 0 <= ?x * ?x => fold (Rsqr x); apply Rle_0_sqr end).
+  replace (5 / 10 * sqrt X0 * (5 / 10 * sqrt X0)) with (sqrt X0 * sqrt X0 / 4) by field.
+  rewrite (sqrt_sqrt X0 HX). unfold X0.
+  split; [field|]. split; [field|]. f_equal; [f_equal|]; field.
+Qed.
+
+Print Assumptions from_two_points_src_spec.
 Print Assumptions intersect_planes_src_on_planes.
 Print Assumptions project_onto_src_spec.
 Print Assumptions project_onto_intersection_src_spec.
@@ -376,7 +403,7 @@ Print Assumptions signed_area_tri_src_shape.
 """
 
 THEOREMS = ["intersect_planes_src_on_planes", "project_onto_src_spec", "project_onto_intersection_src_spec", "signed_volume_tet_src_is_det",
-            "signed_volume_tet_src_antisym", "signed_area_tri_n_src_spec", "signed_area_tri_src_shape"]
+            "signed_volume_tet_src_antisym", "signed_area_tri_n_src_spec", "signed_area_tri_src_shape", "from_two_points_src_spec"]
 
 
 def gallina(path):
@@ -388,6 +415,9 @@ def gallina(path):
         info["functions"][name] = nlets
         if asserts:
             info["asserts"][name] = asserts
+    text, _, nlets = translate_fn(src, "from_two_points", funs, ret="Sp")
+    defs.append(text)
+    info["functions"]["from_two_points"] = nlets
     if info["asserts"].get("intersect_planes") != ["det"]:
         raise TranslationError("intersect_planes: the assertion det != 0 is gone or changed")
     text, _, nlets = translate_fn(src, "signed_area_tri", funs, stop_at_let="n")
